@@ -558,6 +558,25 @@ func (t *Table) Put(input *types.PutItemInput) (map[string]*types.Item, error) {
 	return item, nil
 }
 
+// ValidatePutItem reports the validation error a PutItem of item would fail with (key attributes missing or of the
+// wrong type, for the table or one of its indexes); it changes nothing
+func (t *Table) ValidatePutItem(item map[string]*types.Item) error {
+	if _, err := t.KeySchema.GetKey(t.AttributesDef, item); err != nil {
+		return types.NewError("ValidationException", err.Error(), nil)
+	}
+
+	return t.validateIndexKeys(item)
+}
+
+// ValidateKey reports the validation error an operation addressed by key would fail with; it changes nothing
+func (t *Table) ValidateKey(key map[string]*types.Item) error {
+	if _, err := t.KeySchema.GetKey(t.AttributesDef, key); err != nil {
+		return types.NewError("ValidationException", err.Error(), nil)
+	}
+
+	return nil
+}
+
 func (t *Table) validateIndexKeys(item map[string]*types.Item) error {
 	for _, index := range t.Indexes {
 		if _, err := index.keySchema.GetKey(t.AttributesDef, item); err != nil {
